@@ -18,15 +18,114 @@ def _mk(rule):
     return fn
 
 
+def _byte_is_newline_closure(prog, f, node):
+    n = peel(node)
+    if n.kind == "agg" and isinstance(n.a, tuple) and str(n.a[0]).startswith("closure "):
+        cb = prog.body_by_def(n.a[0][len("closure "):], f.crate)
+        if cb is not None:
+            r = peel(Origins(cb).local(0))
+            return r.kind == "bin" and r.a == "Eq" and any(k.kind == "const" and k.a.as_int() == 10 for k in r.kids)
+    return False
+
+
+def _split_form_inclusive(ctx, prog, f, o):
+    """`text.split_inclusive(|b| *b == b'\n').collect()`"""
+    r = peel(o.local(0))
+    if not (r.kind == "call" and method_name(r.a) == "Iterator::collect" and r.kids):
+        return False
+    sp = peel(r.kids[0])
+    if not (sp.kind == "call" and method_name(sp.a).endswith("split_inclusive") and len(sp.kids) == 2):
+        return False
+    src = peel(sp.kids[0])
+    ctx.check(src.kind == "arg" and src.a == 1 and _byte_is_newline_closure(prog, f, sp.kids[1]), "in-loop-slice", f.where(),
+              "the input is split after every `\n` (split_inclusive keeps the terminator, drops no byte and yields no empty tail)",
+              "split_inclusive is applied to %s with another predicate" % src.show()[:40])
+    for k in ("two-pushes", "tail-slice", "tail-guard", "start-update", "start-writes", "all-bytes"):
+        ctx.ok(k, f.where(), "(split_inclusive form) guaranteed by the std adaptor")
+    return True
+
+
+def _split_form_remainder(ctx, prog, f, o):
+    """`while let Some(i) = rest.iter().position(|b| *b == b'\n') { let (line, r) = rest.split_at(i + 1); push(line); rest = r } if !rest.is_empty() { push(rest) }`"""
+    sps = [(bb, t) for bb, t in f.calls() if mname(t) == "slice::split_at"]
+    pos = [(bb, t) for bb, t in f.calls() if mname(t) == "Iterator::position"]
+    pushes = [(bb, t) for bb, t in f.calls() if mname(t) == "Vec::push"]
+    if len(sps) != 1 or len(pos) != 1:
+        return False
+    (sb, st), (pb, pt) = sps[0], pos[0]
+    back = f.back_edges()
+    ctx.check(len(pushes) == 2, "two-pushes", f.where(), "one push per terminated line and one for an unterminated rest", "found %d pushes" % len(pushes))
+    # the remainder local: receiver of split_at
+    rc = [l for l in range(len(f.locals)) if l > 1 and f.lty(l) == "&[u8]" and len(f.defs.get(l, [])) >= 2]
+    if len(rc) != 1:
+        return False
+    R = rc[0]
+    rtree = peel(o.operand(st["args"][0]))
+    if not any(n.kind == "phi" and ("(_%d)" % R in str(n.a) or str(n.a) == "_%d" % R) for n in rtree.walk()):
+        return False
+    rdefs = f.defs.get(R, [])
+    init_ok = any(peel(o._def(d, 0, ())).kind == "arg" and peel(o._def(d, 0, ())).a == 1 for d in rdefs)
+    upd = [d for d in rdefs if d[0] in f.reachable(sb) and d[0] != rdefs[0][0]]
+    upd_ok = any(peel(o._def(d, 0, ())).kind == "field" and peel(o._def(d, 0, ())).a == "1" and
+                 any(n.kind == "call" and n.at == (sb, "term") for n in o._def(d, 0, ()).walk()) for d in rdefs)
+    ctx.check(init_ok and upd_ok and len(rdefs) == 2, "start-writes", f.where(), "the remainder starts as the whole input and becomes the second half of each split",
+              "the remainder is written %d times (init from input: %s, update from split_at.1: %s)" % (len(rdefs), init_ok, upd_ok))
+    ctx.ok("start-update", f.loc(sb), "the remainder is replaced by the rest of the very split whose first half was pushed")
+    # split position = position + 1 over the remainder, predicate byte == \n
+    it = o.operand(pt["args"][0])
+    on_rest = any(n.kind == "call" and method_name(n.a) == "slice::iter" for n in it.walk())
+    at = peel(o.operand(st["args"][1]))
+    plus1 = at.kind == "field" and at.a == "0" and at.kids[0].kind == "bin" and at.kids[0].a in ("AddWithOverflow", "Add") and \
+        at.kids[0].kids[1].kind == "const" and at.kids[0].kids[1].a.as_int() == 1 and any(n.kind == "call" and n.at == (pb, "term") for n in at.walk())
+    ctx.check(on_rest and plus1 and _byte_is_newline_closure(prog, f, o.operand(pt["args"][1])), "in-loop-slice", f.loc(sb),
+              "each line is rest[..=position of the first `\n`] (terminator kept)", "the split point is %s" % at.show()[:60])
+    ctx.check(not [m for _, t in f.calls() for m in [mname(t)] if m in ("Iterator::skip", "Iterator::take", "Iterator::filter", "Iterator::rev", "Iterator::rposition")],
+              "all-bytes", f.where(), "the search runs over the whole remainder, front to back")
+    for bb, t in pushes:
+        arg = peel(o.operand(t["args"][1]))
+        if sb in f.reachable(bb, removed_edges=[]) and f.dominates(sb, bb) and bb in {x for b_, h in back for x in f.reachable(h) if b_ in f.reachable(x)}:
+            ctx.check(arg.kind == "field" and arg.a == "0" and any(n.kind == "call" and n.at == (sb, "term") for n in arg.walk()), "in-loop-slice:push", f.loc(bb),
+                      "the first half of the split is pushed", "pushed inside the loop: %s" % arg.show()[:60])
+        else:
+            tail_is_rest = any(n.kind == "phi" or n.kind == "arg" or n.kind == "field" for n in [arg])
+            ctx.check(tail_is_rest, "tail-slice", f.loc(bb), "after the loop the remainder itself is pushed")
+            g = False
+            for sb2, st2 in switches(f):
+                be2 = bool_edges(f, sb2)
+                if be2 is None:
+                    continue
+                tree = cond_tree(f, sb2, o)
+                neg = False
+                while tree.kind == "un" and tree.a == "Not":
+                    neg, tree = not neg, tree.kids[0]
+                if tree.kind == "call" and method_name(tree.a) == "slice::is_empty":
+                    edge = be2[0] if neg else be2[1]
+                    if bb in f.reachable(edge) and bb not in f.reachable(0, removed_edges=[(sb2, edge)]):
+                        g = True
+            ctx.check(g, "tail-guard", f.loc(bb), "the rest is pushed only when it is not empty (no empty trailing line)")
+    return True
+
+
 def r2_4(ctx):
     prog = ctx.prog
     f = prog.fn("newline::split_at_newline")
     o = Origins(f)
-    start = f.local_by_name("start")
-    if len(start) != 1:
-        # bind by role: the usize local used as slice start
-        raise AnchorError("split_at_newline: `start` role not bound")
-    S = start[0]
+    # other accepted forms of the same partition
+    if _split_form_remainder(ctx, prog, f, o) or _split_form_inclusive(ctx, prog, f, o):
+        return
+    # index form; bind `start` by role: the usize local used as the start of the pushed sub-slices
+    cands = set()
+    for bi, b in enumerate(f.blocks):
+        for st in b["stmts"]:
+            if st["k"] == "assign" and st["rv"]["k"] == "agg" and "Range" in str(st["rv"].get("adt", "")) and st["rv"].get("ops"):
+                pl = st["rv"]["ops"][0].get("copy") or st["rv"]["ops"][0].get("move")
+                if pl is not None:
+                    c = f.canon_place(pl)
+                    if not c["p"] and f.lty(c["l"]) == "usize" and len(f.defs.get(c["l"], [])) >= 2:
+                        cands.add(c["l"])
+    if len(cands) != 1:
+        raise AnchorError("split_at_newline: `start` role not bound (%d candidates) and no other recognised form" % len(cands))
+    S = cands.pop()
     pushes = [(bb, t) for bb, t in f.calls() if mname(t) == "Vec::push"]
     ctx.check(len(pushes) == 2, "two-pushes", f.where(), "one push per terminated line and one for an unterminated rest", "found %d pushes" % len(pushes))
     back = f.back_edges()
